@@ -160,7 +160,12 @@ impl B for bool {
         vec![false, true]
     }
     fn show(&self) -> String {
-        self.to_string()
+        // look at the byte: a bool that arrives as 7 must be reported as such
+        match unsafe { *(self as *const bool as *const u8) } {
+            0 => "false".into(),
+            1 => "true".into(),
+            n => format!("bool:invalid-byte({n})"),
+        }
     }
     fn lit(&self) -> Option<String> {
         Some(self.to_string())
